@@ -81,7 +81,7 @@ def extract_json(body, schema):
         # but cannot be encoded again, hence neither stored nor echoed.
         # UnicodeEncodeError is a ValueError.
         json.dumps(data, ensure_ascii=False).encode('utf-8')
-    except ValueError as exc:
+    except (ValueError, RecursionError) as exc:
         raise webob.exc.HTTPBadRequest(
             'Malformed JSON: %(error)s' % {'error': exc},
             json_formatter=json_error_formatter)
